@@ -39,3 +39,29 @@ void* scanning_thread(void* param)
   while (p != NULL) { handle(p); p = file_queue_get(0); }
   return 0;
 }
+
+/* R18.7: per-file callback state is not reset between files */
+typedef struct _CB_ARGS { const char* file_path; int current_count; } CB_ARGS;
+typedef struct _YR_SCANNER YR_SCANNER;
+void yr_scanner_set_callback(YR_SCANNER* s, int (*cb)(void*, int, void*, void*), void* user_data);
+int yr_scanner_scan_file(YR_SCANNER* s, const char* path);
+static int count_cb(void* ctx, int msg, void* data, void* user_data)
+{
+  ((CB_ARGS*) user_data)->current_count++;
+  return 0;
+}
+void* counting_thread(void* param)
+{
+  YR_SCANNER* sc = (YR_SCANNER*) param;
+  CB_ARGS a;
+  a.current_count = 0;
+  yr_scanner_set_callback(sc, count_cb, &a);
+  char* p = file_queue_get(0);
+  while (p != NULL)
+  {
+    a.file_path = p;                       /* current_count keeps growing */
+    yr_scanner_scan_file(sc, p);
+    p = file_queue_get(0);
+  }
+  return 0;
+}
